@@ -1081,6 +1081,23 @@ def _str_find(M, fr, n, a):
     for i in range(len(s.b) - len(p) + 1):
         if M.branch(_match_at(s, i, p)): return some(i)
     return none()
+@reg(r'^core::str::<impl str>::(split_at|split_at_checked)$')
+def _str_split_at(M, fr, n, a):
+    s = as_str(M, a[0]); i = simp(a[1])
+    if isinstance(s, SymStr): raise Unsupported('split_at on an opaque string')
+    i = _concretize_idx(M, i, len(s.b))
+    checked = n.endswith('checked')
+    if i > len(s.b):
+        if checked: return none()
+        raise Panic('byte index %d is out of bounds of string of length %d' % (i, len(s.b)))
+    if 0 < i < len(s.b):
+        b = s.b[i]
+        okb = ((b & 0xC0) != 0x80)
+        if not M.branch(okb):
+            if checked: return none()
+            raise Panic('byte index %d is not a char boundary' % i)
+    r = Agg('()', [Ref(Cell(Str(s.b[:i]))), Ref(Cell(Str(s.b[i:])))])
+    return some(r) if checked else r
 @reg(r'^core::str::<impl str>::rfind$')
 def _str_rfind(M, fr, n, a):
     s = as_str(M, a[0]); pred = _char_pred(M, fr, a[1])
